@@ -288,6 +288,7 @@ pub fn units(prop: &str, tier: Tier) -> Option<Vec<Unit>> {
                 class("kext-emissions-state", &en::k_ext(), pick(4, 4)).len(pick(4, 5)).cfg(CfgId::RichSt).probes(STATE).alarm(alarm).unit(),
                 class("kstate-emissions-state", &en::k_state(), pick(3, 4)).cfg(CfgId::RichSt).probes(STATE).alarm(alarm).unit(),
                 class("kemit-deep", &en::k_emit(), pick(5, 6)).alpha(&['a', 'b'], 4).cfg(CfgId::RichSt).probes(STATE).alarm(alarm).unit(),
+                class("kpadded-emissions-state", &en::k_padded(), pick(4, 5)).alpha(&['a', ' ', 'b'], 4).cfg(CfgId::RichSt).probes(STATE).alarm(alarm).unit(),
                 class("kemit-through-clone", &en::k_emit(), pick(4, 5)).alpha(&['a', 'b'], 4).cfg(CfgId::RichSt).probes(STATE).alarm(alarm).clone_mode().unit(),
                 e1("k02-emissions", "repeated()/separated_by() templates with emitting items and emitting separators (every bounds / flags / sink setting), each followed by a rest capture".into(), {
                     let mut v = en::k02_rep(false);
@@ -517,6 +518,11 @@ pub fn units(prop: &str, tier: Tier) -> Option<Vec<Unit>> {
                 .probes(NOPROBE)
                 .pairs(PairMode::Exact)
                 .unit(),
+                e1("kshare-memoized-definition-pairs", format!("one parser value used several times (let x = def; body with >= 2 uses of x; bodies of <= {} nodes over x / just / map_err / or_not / then / or / recover_with, 5 definitions): def vs def.memoized() - the uses share one memo table, so entries are really looked up (same position after backtracking, under map_err, inside a recovery strategy)", pick(8, 9)), en::k_share_pairs(pick(8, 9)))
+                    .alpha(&['a', 'b'], pick(4, 5))
+                    .probes(NOPROBE)
+                    .pairs(PairMode::Exact)
+                    .unit(),
                 rec_unit("leftrec", tier),
             ]
         }
@@ -614,6 +620,10 @@ pub fn units(prop: &str, tier: Tier) -> Option<Vec<Unit>> {
                 class("kstate-slice", &en::k_state(), pick(3, 3)).kind(KindId::Slice).cfg(CfgId::RichSt).probes(STATE).alarm(alarm).unit(),
                 e1("kstate-by-reference-slice", "state-class grammars (<= 3 nodes) reading a token through any / select, rewritten to any_ref / select_ref (tokens handed out by reference reach the inspector too)".into(), en::by_ref_all(&en::k_state().upto(3))).kind(KindId::Slice).cfg(CfgId::RichSt).probes(STATE).alarm(alarm).unit(),
                 class("kstate-stream", &en::k_state(), pick(3, 3)).kind(KindId::Stream).cfg(CfgId::RichSt).probes(STATE).alarm(alarm).unit(),
+                // .padded() advances with InputRef::skip_while: skipped tokens reach the inspector exactly once
+                class("kpadded-str", &en::k_padded(), pick(5, 6)).alpha(&['a', ' ', 'b'], 4).cfg(CfgId::RichSt).probes(STATE).alarm(alarm).unit(),
+                class("kpadded-slice", &en::k_padded(), pick(4, 5)).alpha(&['a', ' ', 'b'], 4).kind(KindId::Slice).cfg(CfgId::RichSt).probes(STATE).alarm(alarm).unit(),
+                class("kpadded-stream", &en::k_padded(), pick(4, 5)).alpha(&['a', ' ', 'b'], 4).kind(KindId::Stream).cfg(CfgId::RichSt).probes(STATE).alarm(alarm).unit(),
                 // every InputRef operation (next / peek / skip / save / rewind / parse / check) with an inspector snapshot after each step
                 Unit::Custom { name: "cursor-machine".into(), run: Box::new(move |cx| eng_inputs::run("cursor-machine", tier, cx)) },
             ]
